@@ -155,6 +155,8 @@ func (r *Rec) CallPost(kind, site, class string, in ev.M, keep []string, f func(
 	if err == nil {
 		m["res"] = "ok"
 		if post != nil {
+			// the second function may call into the library as well (accessors of the returned value): same watchdog
+			r.deadline.Store(time.Now().Add(CallLimit).UnixNano())
 			func() {
 				defer func() {
 					if p := recover(); p != nil {
@@ -163,6 +165,7 @@ func (r *Rec) CallPost(kind, site, class string, in ev.M, keep []string, f func(
 				}()
 				post(out)
 			}()
+			r.deadline.Store(0)
 		}
 	}
 	for k, v := range out {
